@@ -158,7 +158,11 @@ class Component(IComponent, Loggable, ABC):
 
         self._update()
 
-        if self.status not in (ComponentStatus.FAILED, ComponentStatus.FINALIZED):
+        if self.status not in (
+            ComponentStatus.FAILED,
+            ComponentStatus.FINALIZED,
+            ComponentStatus.FINISHED,
+        ):
             self.status = ComponentStatus.UPDATED
 
     def _update(self):
